@@ -1,11 +1,12 @@
 """C06 - request engine: bounded retries, one request in flight, every caller completes, gates."""
 import asyncio
+import re
 
 import vf
 from harness import vloop, session, rtrace
 
 HEADER = """From Coq Require Import ZArith List Bool.
-Require Import GV.Model.Request GV.Model.RequestChk.
+Require Import GV.Model.Request GV.Model.RequestChk GV.Model.RequestW.
 Import ListNotations.
 Open Scope Z_scope.
 """
@@ -181,6 +182,20 @@ def py_oracle(tr, T=None, P=None, J=None):
                 if l[2] - acq[l[1]] > lim:
                     bad.append(("engine:call_exceeds_time_bound", "call %d (%s, %d attempts allowed) held the lock %.3f s, more than retry-count x (timeout + pause) + scheduling slack = %.3f s"
                                 % (l[1], tr.calls[l[1]]["caller"], tr.calls[l[1]]["retries"], (l[2] - acq[l[1]]) / 1e6, lim / 1e6)))
+    if T is not None:
+        free_at, arrived, holder2 = 0, {}, None
+        for l in tr.log:
+            if l[0] == "call":
+                arrived[l[1]] = l[2]
+            elif l[0] == "acquire":
+                lim = max(free_at, arrived.get(l[1], 0)) + J
+                if l[2] > lim:
+                    bad.append(("engine:lock_handover_late", "call %d (%s) arrived at %.3f s, the lock was free from %.3f s, but it was granted only at %.3f s (more than one scheduling slot later)"
+                                % (l[1], tr.calls[l[1]]["caller"], arrived.get(l[1], 0) / 1e6, free_at / 1e6, l[2] / 1e6)))
+                    break
+                holder2 = l[1]
+            elif l[0] in ("release", "cancel") and holder2 == l[1]:
+                free_at, holder2 = l[2], None
     cancelled = {l[1] for l in tr.log if l[0] == "cancel"}
     want = [c for c in order_called if c in set(order_acq)]
     if [c for c in order_acq] != want:
@@ -197,6 +212,7 @@ def run(ctx):
     ctx.prove(timeout=1200)
     n = 12 if ctx.thorough else 5
     exprs, sexprs, meta, traces = [], [], [], []
+    wexprs, wsexprs = [], []
     known_gate = 0
     for k in range(n):
         snap = SNAPS[k % len(SNAPS)]
@@ -211,6 +227,10 @@ def run(ctx):
         exprs.append("chk_request %s [%s] %s" % (cfg, "; ".join(quiet_labels), vf.cbool(r["quiescent"])))
         exprs.append("chk_request %s [%s] false" % (cfg, "; ".join(labels)))
         sexprs.append("stats %s [%s]" % (cfg, "; ".join(labels)))
+        cS = rtrace.struct_ceiling(tr)
+        wl = "; ".join(rtrace.coq_wlabels(tr))
+        wexprs.append("wchk %s %d [%s]" % (cfg, cS, wl))
+        wsexprs.append("wait_stats %s %d (init, ginit) [%s] (0, 0)" % (cfg, cS, wl))
         kinds = {}
         for l in tr.log:
             kinds[l[0]] = kinds.get(l[0], 0) + 1
@@ -256,7 +276,6 @@ def run(ctx):
         if "None" in txt[-30:]:
             rc, out = vf.coqc_text("C06_dbg", HEADER + "Eval vm_compute in (offenders %s %s).\n" % (cfg, lab))
             detail = "session %d accepted, but calls (id, ok, duration, bound, sends, hits) break the per-call facts or the run is not quiescent: %s" % (i // 2, " ".join(out.split())[-300:])
-        import re
         mm = re.search(r"Some (\d+)", txt)
         if mm:
             j = int(mm.group(1))
@@ -266,9 +285,34 @@ def run(ctx):
     ctx.oblige("correspondence:request_trace_acceptance", not bad, detail)
     if bad:
         ctx.extra["rejected_trace"] = {"detail": detail, "session": meta[bad[0] // 2]}
+    # the timed layer: clock monotone, holder never silent beyond its allowance, prompt hand-over of the lock
+    wres = ctx.coq_cases("reqw", HEADER, wexprs, shard=2, timeout=1500)
+    wbad = [i for i, x in enumerate(wres) if x is not True]
+    wdetail = ""
+    if wbad:
+        i = wbad[0]
+        e = wexprs[i]
+        rest = e[len("wchk "):]
+        cfgS, lab = rest[:rest.index(" [")], rest[rest.index(" [") + 1:]
+        rc, out = vf.coqc_text("C06_wdbg", HEADER + "Eval vm_compute in (first_wreject %s (init, ginit) %s 0).\n" % (cfgS, lab))
+        txt = " ".join(out.split())
+        wdetail = "session %d: first label the timed layer refuses: %s" % (i, txt[-30:])
+        mm = re.search(r"Some (\d+)", txt)
+        if mm:
+            j = int(mm.group(1))
+            labs = lab[1:-1].split("; ")
+            wdetail += " ; context: " + " | ".join(labs[max(0, j - 6):j + 1])
+        meta[i]["first_timed_reject"] = wdetail
+    ctx.oblige("correspondence:request_timed_layer_acceptance", not wbad, wdetail)
+    if wbad:
+        ctx.extra["rejected_timed_trace"] = {"detail": wdetail, "session": meta[wbad[0]]}
+    rc, out = vf.coqc_text("C06_wstats", HEADER + "".join("Eval vm_compute in (%s).\n" % e for e in wsexprs), timeout=900)
+    waits = [(int(a), int(b)) for a, b in re.findall(r"Some\s*\((-?\d+),\s*(-?\d+)\)", " ".join(out.split()))]
+    if waits:
+        ctx.dist["longest_lock_wait_s"] = max(a for a, b in waits) / 1e6
+        ctx.dist["largest_promise_margin_s"] = max(b for a, b in waits) / 1e6
     # gate statistics: from the model's run of the accepted traces, cross-checked with a direct reading of the labels
     rc, out = vf.coqc_text("C06_stats", HEADER + "".join("Eval vm_compute in (%s).\n" % e for e in sexprs), timeout=900)
-    import re
     fin = canc = stale = retr = ungu = 0
     for mm in re.finditer(r"Some\s*\((\d+)%nat,\s*(\d+)%nat,\s*(-?\d+),\s*(-?\d+),\s*(-?\d+)\)", " ".join(out.split())):
         fin += int(mm.group(1)); canc += int(mm.group(2)); stale += int(mm.group(3)); retr += int(mm.group(4)); ungu += int(mm.group(5))
